@@ -3,6 +3,7 @@
 package nfpm
 
 import (
+	"bytes"
 	"errors"
 	"fmt"
 	"io"
@@ -84,7 +85,19 @@ func Parse(in io.Reader) (config Config, err error) {
 
 // ParseWithEnvMapping decodes YAML data from an io.Reader into a configuration struct.
 func ParseWithEnvMapping(in io.Reader, mapping func(string) string) (config Config, err error) {
-	dec := yaml.NewDecoder(in)
+	data, err := io.ReadAll(in)
+	if err != nil {
+		return
+	}
+	// KnownFields does not look at a key that is the YAML null (~, null):
+	// the decoder skips it, with everything below it, without an error.
+	var tree yaml.Node
+	if yaml.Unmarshal(data, &tree) == nil {
+		if err = rejectNullKeys(&tree); err != nil {
+			return
+		}
+	}
+	dec := yaml.NewDecoder(bytes.NewReader(data))
 	dec.KnownFields(true)
 	if err = dec.Decode(&config); err != nil {
 		return
@@ -107,6 +120,23 @@ func ParseWithEnvMapping(in io.Reader, mapping func(string) string) (config Conf
 	config.expandEnvVars()
 	WithDefaults(&config.Info)
 	return config, nil
+}
+
+// rejectNullKeys fails for a mapping key that is null at any nesting level.
+func rejectNullKeys(n *yaml.Node) error {
+	if n.Kind == yaml.MappingNode {
+		for i := 0; i+1 < len(n.Content); i += 2 {
+			if k := n.Content[i]; k.Kind == yaml.ScalarNode && k.Tag == "!!null" {
+				return fmt.Errorf("yaml: unmarshal errors:\n  line %d: field %s not found (a null key)", k.Line, k.Value)
+			}
+		}
+	}
+	for _, c := range n.Content {
+		if err := rejectNullKeys(c); err != nil {
+			return err
+		}
+	}
+	return nil
 }
 
 // emptyDocument reports whether a decoded document holds nothing (a trailing
